@@ -593,13 +593,15 @@ where
     fn dump<U: Write>(&mut self, dest: &mut U) -> Result<(), Error> {
         match self {
             Self::FileStart { filename, id } => {
-                dest.write_u8(ArchiveFileBlockType::FileStart as u8)?;
-                dest.write_u64::<LittleEndian>(*id)?;
+                // Check before writing anything: a refused block must not
+                // leave a partial block in the archive
                 let bytes = filename.as_bytes();
                 let length = bytes.len() as u64;
                 if length > FILENAME_MAX_SIZE {
                     return Err(Error::FilenameTooLong);
                 }
+                dest.write_u8(ArchiveFileBlockType::FileStart as u8)?;
+                dest.write_u64::<LittleEndian>(*id)?;
                 dest.write_u64::<LittleEndian>(length)?;
                 dest.write_all(bytes)?;
                 Ok(())
@@ -931,6 +933,10 @@ impl<W: InnerWriterTrait> ArchiveWriter<'_, W> {
 
         if self.files_info.contains_key(filename) {
             return Err(Error::DuplicateFilename);
+        }
+        if filename.len() as u64 > FILENAME_MAX_SIZE {
+            // Refuse before registering the file
+            return Err(Error::FilenameTooLong);
         }
 
         // Create ID for this file
